@@ -4,6 +4,7 @@
   is in `Pyab/Spec/Run.lean`.
 -/
 import Pyab.Spec.Run
+import Pyab.Properties.EvaluatorPremise
 import Pyab.Proofs.RunGenerated
 import Pyab.Properties.C02
 namespace Pyab.Properties
